@@ -27,8 +27,8 @@ Parent == [mod |-> "mod", F1 |-> "mod", G1 |-> "F1", C1 |-> "mod", init |-> "C1"
 IsClass(s) == s \in {"C1", "C2", "E1"}
 
 \* ---- binders: [name, scope where the name is bound]
-Binders == {"s1", "f1", "p1", "p2", "l1", "n1", "i1", "g1", "q1", "c1", "a1", "p3", "m1", "p4", "l2", "e1", "f2", "p5", "o1", "k1", "w1", "f3", "p6", "o2", "r1", "m2", "l3", "c2", "m3", "o3", "e2", "m4", "m5", "v1"}
-ScopeOf == [s1 |-> "mod", f1 |-> "mod", c1 |-> "mod", f2 |-> "mod", f3 |-> "mod", p6 |-> "F3", o2 |-> "F2", r1 |-> "F2", m2 |-> "C1", l3 |-> "M1", c2 |-> "C1", m3 |-> "C2", o3 |-> "F2", e2 |-> "mod", m4 |-> "E1", m5 |-> "E1", v1 |-> "F2",
+Binders == {"s1", "f1", "p1", "p2", "l1", "n1", "i1", "g1", "q1", "c1", "a1", "p3", "m1", "p4", "l2", "e1", "f2", "p5", "o1", "k1", "w1", "f3", "p6", "o2", "r1", "m2", "l3", "c2", "m3", "o3", "e2", "m4", "m5", "v1", "t1", "t2"}
+ScopeOf == [s1 |-> "mod", f1 |-> "mod", c1 |-> "mod", f2 |-> "mod", f3 |-> "mod", p6 |-> "F3", o2 |-> "F2", r1 |-> "F2", m2 |-> "C1", l3 |-> "M1", c2 |-> "C1", m3 |-> "C2", o3 |-> "F2", e2 |-> "mod", m4 |-> "E1", m5 |-> "E1", v1 |-> "F2", t1 |-> "mod", t2 |-> "mod",
             p1 |-> "F1", p2 |-> "F1", l1 |-> "F1", n1 |-> "F1", i1 |-> "F1", g1 |-> "F1",
             q1 |-> "G1",
             a1 |-> "C1", m1 |-> "C1",
@@ -60,7 +60,9 @@ Refs == { [id |-> 1, at |-> "F1", to |-> "p1"], [id |-> 2, at |-> "F1", to |-> "
           \* an enum whose second member is read through .value (the value is folded into the output)
           [id |-> 31, at |-> "F2", to |-> "e2"], [id |-> 32, at |-> "F2", to |-> "v1"],
           \* the class as base of a derived class
-          [id |-> 33, at |-> "mod", to |-> "c1"] }
+          [id |-> 33, at |-> "mod", to |-> "c1"],
+          \* two type variables of one generic function, mentioned in the other order in its signature
+          [id |-> 34, at |-> "mod", to |-> "t1"], [id |-> 35, at |-> "mod", to |-> "t2"] }
 
 \* ---- LEGB resolution of slot x from scope s under assignment id : binders -> slots
 RECURSIVE Resolve(_, _, _, _)
@@ -80,7 +82,7 @@ Valid(id) ==
 
 Injective == [b \in Binders |-> b]          \* every binder its own slot (slots are named after binders)
 Merge(id, b1, b2) == [id EXCEPT ![b2] = id[b1]]
-Order == <<"s1", "f1", "p1", "p2", "l1", "n1", "i1", "g1", "q1", "c1", "a1", "p3", "m1", "p4", "l2", "e1", "f2", "p5", "o1", "k1", "w1", "f3", "p6", "o2", "r1", "m2", "l3", "c2", "m3", "o3", "e2", "m4", "m5", "v1">>
+Order == <<"s1", "f1", "p1", "p2", "l1", "n1", "i1", "g1", "q1", "c1", "a1", "p3", "m1", "p4", "l2", "e1", "f2", "p5", "o1", "k1", "w1", "f3", "p6", "o2", "r1", "m2", "l3", "c2", "m3", "o3", "e2", "m4", "m5", "v1", "t1", "t2">>
 \* (a function, so that TLC evaluates it once)
 Idx == [b \in Binders |-> CHOOSE i \in DOMAIN Order : Order[i] = b]
 \* one merge per unordered pair: the later binder (in Order) takes the slot of the earlier one (merging the other way round
@@ -99,21 +101,21 @@ BindsBySlotOnly == \A id \in Assignments : \A r \in Refs : Resolve(Ren(id), Ren(
 
 \* ---- namings: slot -> string.  Pools are sequences; slot k (in a fixed order of the binders) takes pool[k]
 Pools == [
-  base    |-> <<"zqa", "zqb", "zqc", "zqd", "zqe", "zqf", "zqg", "Zqh", "zqi", "zqj", "zqk", "zql", "zqm", "zqn", "zqo", "zqp", "zqq", "zqr", "zqs", "zqt", "zqu", "zqv", "zqw", "zqx", "zqy", "zra", "zrb", "Zrc", "zrd", "zre", "Zrf", "zrg", "zrh", "zri">>,
-  prefix  |-> <<"v", "v_", "v__", "vv", "v_v", "vv_", "v_vv", "Vv", "v_a", "v_ab", "v_abc", "va", "vab", "vabc", "va_", "v_b", "vb", "v_bb", "vbb", "v_c", "vc", "vcc", "v_cc", "vc_", "v_d", "v_dd", "vd", "Vd_", "v_e", "ve", "Ve", "v_f", "vf", "v_ff">>,
-  dunder  |-> <<"a__b", "a__", "a__b__c", "b__a", "a_b", "ab__", "a___b", "A__b", "b__", "c__a", "c__", "a__c", "c__b", "b__c", "ab__c", "a__bc", "bc__a", "cb__a", "abc__", "d__a", "a__d", "d__", "a__e", "e__a", "ae__", "e__", "a__f", "F__a", "a__g", "g__a", "H__a", "a__h", "h__a", "ah__">>,
-  words   |-> <<"var", "closure", "name", "block", "list_comp", "function", "args", "Class", "field", "parameter", "method", "argument", "local", "comp_for", "entry", "param", "value", "lambda_", "elem", "decl_var", "scope", "relay", "func_call", "indexer", "move_assign", "comp_if", "this", "Types", "relay_of", "alt_class", "Enum_", "member", "value_", "literal">>,
-  lengths |-> <<"x", "xxxxxxxxxxxxxxxxxxxxxxxx", "y", "yyyyyyyyyyyyyyyy", "z", "zzzzzzzzzzzz", "w", "Wwwwwwww", "u", "uuuuuuuuuuuuuuuuuuuuuuuuuuuuuuuu", "t", "tttt", "r", "rrrrrrrr", "q", "qqqqqq", "o", "oo", "k", "j", "jjjjjjjjjj", "i", "iiiiiiiiiiiiii", "h", "hhh", "g", "gggggggggggg", "F", "ffffffff", "e", "D", "dd", "ddddddddddd", "c">>,
-  digits  |-> <<"x1", "x10", "x11", "x2", "x20", "x100", "x01", "X1", "x1_", "x_1", "x1_0", "x12", "x21", "x121", "x112", "x3", "x30", "x31", "x13", "x4", "x40", "x41", "x14", "x5", "x50", "x51", "x15", "X6", "x60", "x61", "X7", "x70", "x71", "x17">>,
-  sufchain |-> <<"a", "ba", "cba", "dcba", "edcba", "fedcba", "gfedcba", "hgfedcba", "ihgfedcba", "jihgfedcba", "kjihgfedcba", "lkjihgfedcba", "mlkjihgfedcba", "nmlkjihgfedcba", "onmlkjihgfedcba", "ponmlkjihgfedcba", "qponmlkjihgfedcba", "rqponmlkjihgfedcba", "srqponmlkjihgfedcba", "tsrqponmlkjihgfedcba", "utsrqponmlkjihgfedcba", "vutsrqponmlkjihgfedcba", "wvutsrqponmlkjihgfedcba", "xwvutsrqponmlkjihgfedcba", "yxwvutsrqponmlkjihgfedcba", "zyxwvutsrqponmlkjihgfedcba", "azyxwvutsrqponmlkjihgfedcba", "bazyxwvutsrqponmlkjihgfedcba", "cbazyxwvutsrqponmlkjihgfedcba", "dcbazyxwvutsrqponmlkjihgfedcba", "Edcbazyxwvutsrqponmlkjihgfedcba", "fEdcbazyxwvutsrqponmlkjihgfedcba", "gfEdcbazyxwvutsrqponmlkjihgfedcba", "hgfEdcbazyxwvutsrqponmlkjihgfedcba">>,
-  sufchainrev |-> <<"hgfEdcbazyxwvutsrqponmlkjihgfedcba", "gfEdcbazyxwvutsrqponmlkjihgfedcba", "fEdcbazyxwvutsrqponmlkjihgfedcba", "Edcbazyxwvutsrqponmlkjihgfedcba", "dcbazyxwvutsrqponmlkjihgfedcba", "cbazyxwvutsrqponmlkjihgfedcba", "bazyxwvutsrqponmlkjihgfedcba", "azyxwvutsrqponmlkjihgfedcba", "zyxwvutsrqponmlkjihgfedcba", "yxwvutsrqponmlkjihgfedcba", "xwvutsrqponmlkjihgfedcba", "wvutsrqponmlkjihgfedcba", "vutsrqponmlkjihgfedcba", "utsrqponmlkjihgfedcba", "tsrqponmlkjihgfedcba", "srqponmlkjihgfedcba", "rqponmlkjihgfedcba", "qponmlkjihgfedcba", "ponmlkjihgfedcba", "onmlkjihgfedcba", "nmlkjihgfedcba", "mlkjihgfedcba", "lkjihgfedcba", "kjihgfedcba", "jihgfedcba", "ihgfedcba", "hgfedcba", "gfedcba", "fedcba", "edcba", "dcba", "cba", "ba", "a">>,
-  prechain |-> <<"a", "ab", "abc", "abcd", "abcde", "abcdef", "abcdefg", "abcdefgh", "abcdefghi", "abcdefghij", "abcdefghijk", "abcdefghijkl", "abcdefghijklm", "abcdefghijklmn", "abcdefghijklmno", "abcdefghijklmnop", "abcdefghijklmnopq", "abcdefghijklmnopqr", "abcdefghijklmnopqrs", "abcdefghijklmnopqrst", "abcdefghijklmnopqrstu", "abcdefghijklmnopqrstuv", "abcdefghijklmnopqrstuvw", "abcdefghijklmnopqrstuvwx", "abcdefghijklmnopqrstuvwxy", "abcdefghijklmnopqrstuvwxyz", "abcdefghijklmnopqrstuvwxyza", "abcdefghijklmnopqrstuvwxyzab", "abcdefghijklmnopqrstuvwxyzabc", "abcdefghijklmnopqrstuvwxyzabcd", "abcdefghijklmnopqrstuvwxyzabcdE", "abcdefghijklmnopqrstuvwxyzabcdEf", "abcdefghijklmnopqrstuvwxyzabcdEfg", "abcdefghijklmnopqrstuvwxyzabcdEfgh">>,
-  prechainrev |-> <<"abcdefghijklmnopqrstuvwxyzabcdEfgh", "abcdefghijklmnopqrstuvwxyzabcdEfg", "abcdefghijklmnopqrstuvwxyzabcdEf", "abcdefghijklmnopqrstuvwxyzabcdE", "abcdefghijklmnopqrstuvwxyzabcd", "abcdefghijklmnopqrstuvwxyzabc", "abcdefghijklmnopqrstuvwxyzab", "abcdefghijklmnopqrstuvwxyza", "abcdefghijklmnopqrstuvwxyz", "abcdefghijklmnopqrstuvwxy", "abcdefghijklmnopqrstuvwx", "abcdefghijklmnopqrstuvw", "abcdefghijklmnopqrstuv", "abcdefghijklmnopqrstu", "abcdefghijklmnopqrst", "abcdefghijklmnopqrs", "abcdefghijklmnopqr", "abcdefghijklmnopq", "abcdefghijklmnop", "abcdefghijklmno", "abcdefghijklmn", "abcdefghijklm", "abcdefghijkl", "abcdefghijk", "abcdefghij", "abcdefghi", "abcdefgh", "abcdefg", "abcdef", "abcde", "abcd", "abc", "ab", "a">>,
+  base    |-> <<"zqa", "zqb", "zqc", "zqd", "zqe", "zqf", "zqg", "Zqh", "zqi", "zqj", "zqk", "zql", "zqm", "zqn", "zqo", "zqp", "zqq", "zqr", "zqs", "zqt", "zqu", "zqv", "zqw", "zqx", "zqy", "zra", "zrb", "Zrc", "zrd", "zre", "Zrf", "zrg", "zrh", "zri", "Ta_x", "Tb_x">>,
+  prefix  |-> <<"v", "v_", "v__", "vv", "v_v", "vv_", "v_vv", "Vv", "v_a", "v_ab", "v_abc", "va", "vab", "vabc", "va_", "v_b", "vb", "v_bb", "vbb", "v_c", "vc", "vcc", "v_cc", "vc_", "v_d", "v_dd", "vd", "Vd_", "v_e", "ve", "Ve", "v_f", "vf", "v_ff", "Tz_y", "Tc_y">>,
+  dunder  |-> <<"a__b", "a__", "a__b__c", "b__a", "a_b", "ab__", "a___b", "A__b", "b__", "c__a", "c__", "a__c", "c__b", "b__c", "ab__c", "a__bc", "bc__a", "cb__a", "abc__", "d__a", "a__d", "d__", "a__e", "e__a", "ae__", "e__", "a__f", "F__a", "a__g", "g__a", "H__a", "a__h", "h__a", "ah__", "Ta_x", "Tb_x">>,
+  words   |-> <<"var", "closure", "name", "block", "list_comp", "function", "args", "Class", "field", "parameter", "method", "argument", "local", "comp_for", "entry", "param", "value", "lambda_", "elem", "decl_var", "scope", "relay", "func_call", "indexer", "move_assign", "comp_if", "this", "Types", "relay_of", "alt_class", "Enum_", "member", "value_", "literal", "Tz_y", "Tc_y">>,
+  lengths |-> <<"x", "xxxxxxxxxxxxxxxxxxxxxxxx", "y", "yyyyyyyyyyyyyyyy", "z", "zzzzzzzzzzzz", "w", "Wwwwwwww", "u", "uuuuuuuuuuuuuuuuuuuuuuuuuuuuuuuu", "t", "tttt", "r", "rrrrrrrr", "q", "qqqqqq", "o", "oo", "k", "j", "jjjjjjjjjj", "i", "iiiiiiiiiiiiii", "h", "hhh", "g", "gggggggggggg", "F", "ffffffff", "e", "D", "dd", "ddddddddddd", "c", "Ta_x", "Tb_x">>,
+  digits  |-> <<"x1", "x10", "x11", "x2", "x20", "x100", "x01", "X1", "x1_", "x_1", "x1_0", "x12", "x21", "x121", "x112", "x3", "x30", "x31", "x13", "x4", "x40", "x41", "x14", "x5", "x50", "x51", "x15", "X6", "x60", "x61", "X7", "x70", "x71", "x17", "Tz_y", "Tc_y">>,
+  sufchain |-> <<"a", "ba", "cba", "dcba", "edcba", "fedcba", "gfedcba", "hgfedcba", "ihgfedcba", "jihgfedcba", "kjihgfedcba", "lkjihgfedcba", "mlkjihgfedcba", "nmlkjihgfedcba", "onmlkjihgfedcba", "ponmlkjihgfedcba", "qponmlkjihgfedcba", "rqponmlkjihgfedcba", "srqponmlkjihgfedcba", "tsrqponmlkjihgfedcba", "utsrqponmlkjihgfedcba", "vutsrqponmlkjihgfedcba", "wvutsrqponmlkjihgfedcba", "xwvutsrqponmlkjihgfedcba", "yxwvutsrqponmlkjihgfedcba", "zyxwvutsrqponmlkjihgfedcba", "azyxwvutsrqponmlkjihgfedcba", "bazyxwvutsrqponmlkjihgfedcba", "cbazyxwvutsrqponmlkjihgfedcba", "dcbazyxwvutsrqponmlkjihgfedcba", "Edcbazyxwvutsrqponmlkjihgfedcba", "fEdcbazyxwvutsrqponmlkjihgfedcba", "gfEdcbazyxwvutsrqponmlkjihgfedcba", "hgfEdcbazyxwvutsrqponmlkjihgfedcba", "Ta_x", "Tb_x">>,
+  sufchainrev |-> <<"hgfEdcbazyxwvutsrqponmlkjihgfedcba", "gfEdcbazyxwvutsrqponmlkjihgfedcba", "fEdcbazyxwvutsrqponmlkjihgfedcba", "Edcbazyxwvutsrqponmlkjihgfedcba", "dcbazyxwvutsrqponmlkjihgfedcba", "cbazyxwvutsrqponmlkjihgfedcba", "bazyxwvutsrqponmlkjihgfedcba", "azyxwvutsrqponmlkjihgfedcba", "zyxwvutsrqponmlkjihgfedcba", "yxwvutsrqponmlkjihgfedcba", "xwvutsrqponmlkjihgfedcba", "wvutsrqponmlkjihgfedcba", "vutsrqponmlkjihgfedcba", "utsrqponmlkjihgfedcba", "tsrqponmlkjihgfedcba", "srqponmlkjihgfedcba", "rqponmlkjihgfedcba", "qponmlkjihgfedcba", "ponmlkjihgfedcba", "onmlkjihgfedcba", "nmlkjihgfedcba", "mlkjihgfedcba", "lkjihgfedcba", "kjihgfedcba", "jihgfedcba", "ihgfedcba", "hgfedcba", "gfedcba", "fedcba", "edcba", "dcba", "cba", "ba", "a", "Tz_y", "Tc_y">>,
+  prechain |-> <<"a", "ab", "abc", "abcd", "abcde", "abcdef", "abcdefg", "abcdefgh", "abcdefghi", "abcdefghij", "abcdefghijk", "abcdefghijkl", "abcdefghijklm", "abcdefghijklmn", "abcdefghijklmno", "abcdefghijklmnop", "abcdefghijklmnopq", "abcdefghijklmnopqr", "abcdefghijklmnopqrs", "abcdefghijklmnopqrst", "abcdefghijklmnopqrstu", "abcdefghijklmnopqrstuv", "abcdefghijklmnopqrstuvw", "abcdefghijklmnopqrstuvwx", "abcdefghijklmnopqrstuvwxy", "abcdefghijklmnopqrstuvwxyz", "abcdefghijklmnopqrstuvwxyza", "abcdefghijklmnopqrstuvwxyzab", "abcdefghijklmnopqrstuvwxyzabc", "abcdefghijklmnopqrstuvwxyzabcd", "abcdefghijklmnopqrstuvwxyzabcdE", "abcdefghijklmnopqrstuvwxyzabcdEf", "abcdefghijklmnopqrstuvwxyzabcdEfg", "abcdefghijklmnopqrstuvwxyzabcdEfgh", "Ta_x", "Tb_x">>,
+  prechainrev |-> <<"abcdefghijklmnopqrstuvwxyzabcdEfgh", "abcdefghijklmnopqrstuvwxyzabcdEfg", "abcdefghijklmnopqrstuvwxyzabcdEf", "abcdefghijklmnopqrstuvwxyzabcdE", "abcdefghijklmnopqrstuvwxyzabcd", "abcdefghijklmnopqrstuvwxyzabc", "abcdefghijklmnopqrstuvwxyzab", "abcdefghijklmnopqrstuvwxyza", "abcdefghijklmnopqrstuvwxyz", "abcdefghijklmnopqrstuvwxy", "abcdefghijklmnopqrstuvwx", "abcdefghijklmnopqrstuvw", "abcdefghijklmnopqrstuv", "abcdefghijklmnopqrstu", "abcdefghijklmnopqrst", "abcdefghijklmnopqrs", "abcdefghijklmnopqr", "abcdefghijklmnopq", "abcdefghijklmnop", "abcdefghijklmno", "abcdefghijklmn", "abcdefghijklm", "abcdefghijkl", "abcdefghijk", "abcdefghij", "abcdefghi", "abcdefgh", "abcdefg", "abcdef", "abcde", "abcd", "abc", "ab", "a", "Tz_y", "Tc_y">>,
   \* names that begin with the names of builtin types and of the words the output language uses for them
-  typewords |-> <<"int_", "intx", "str_", "strs", "bool_", "float_", "list_", "Dict_", "dict_", "tuple_", "void_", "auto_", "std_", "double_", "char_", "long_", "size_t_", "string_", "vector_", "map_", "None_", "self_", "this_", "const_", "type_", "float_x", "tuple_x", "List_x", "int_y", "str_y", "Enum_x", "int_z", "str_z", "bool_z">>,
+  typewords |-> <<"int_", "intx", "str_", "strs", "bool_", "float_", "list_", "Dict_", "dict_", "tuple_", "void_", "auto_", "std_", "double_", "char_", "long_", "size_t_", "string_", "vector_", "map_", "None_", "self_", "this_", "const_", "type_", "float_x", "tuple_x", "List_x", "int_y", "str_y", "Enum_x", "int_z", "str_z", "bool_z", "Ta_x", "Tb_x">>,
   \* names that END with the names the code base knows types by (Generic, Enum, ...)
-  suffixes |-> <<"aGeneric", "bEnum", "cClass", "dType", "eList", "fDict", "gSelf", "hCallable", "iIterator", "NonGeneric", "kUnion", "lOptional", "mTuple", "nAny", "oNone", "pInt", "qStr", "rBool", "sFloat", "tObject", "uEmbed", "vCP", "wCRef", "xCSP", "yTypeVar", "zTypeAlias", "aaProtocol", "InnerClass", "acMeta", "adABC", "KindEnum", "afIntEnum", "agEnumMeta", "ahGeneric_">>,
-  reverse |-> <<"zqs", "zqr", "zqq", "zqp", "zqo", "zqn", "zqm", "Zql", "zqk", "zqj", "zqi", "zqh", "zqg", "zqf", "zqe", "zqd", "zqc", "zqb", "zqa", "zzb", "zza", "zzc", "zzd", "zze", "zzf", "zzg", "zzh", "Zzi", "zzj", "zzk", "Zzl", "zzm", "zzn", "zzo">> ]
+  suffixes |-> <<"aGeneric", "bEnum", "cClass", "dType", "eList", "fDict", "gSelf", "hCallable", "iIterator", "NonGeneric", "kUnion", "lOptional", "mTuple", "nAny", "oNone", "pInt", "qStr", "rBool", "sFloat", "tObject", "uEmbed", "vCP", "wCRef", "xCSP", "yTypeVar", "zTypeAlias", "aaProtocol", "InnerClass", "acMeta", "adABC", "KindEnum", "afIntEnum", "agEnumMeta", "ahGeneric_", "Tz_y", "Tc_y">>,
+  reverse |-> <<"zqs", "zqr", "zqq", "zqp", "zqo", "zqn", "zqm", "Zql", "zqk", "zqj", "zqi", "zqh", "zqg", "zqf", "zqe", "zqd", "zqc", "zqb", "zqa", "zzb", "zza", "zzc", "zzd", "zze", "zzf", "zzg", "zzh", "Zzi", "zzj", "zzk", "Zzl", "zzm", "zzn", "zzo", "Ta_x", "Tb_x">> ]
 IndexOf(b) == Idx[b]
 NameOf(id, pool, b) == Pools[pool][IndexOf(id[b])]          \* the name of binder b = pool entry of its slot
 
@@ -121,7 +123,8 @@ NameOf(id, pool, b) == Pools[pool][IndexOf(id[b])]          \* the name of binde
 T(s) == [k |-> "t", s |-> s]
 B(b) == [k |-> "b", s |-> b]
 Tokens == <<
-  T("from collections.abc import Callable\nfrom enum import Enum\n\ndef apply_fn(fn_: Callable[[int], int], val_: int) -> int:\n\treturn fn_(val_)\n\n"),
+  T("from collections.abc import Callable\nfrom enum import Enum\nfrom typing import TypeVar\n\n"), B("t1"), T(" = TypeVar('"), B("t1"), T("')\n"), B("t2"), T(" = TypeVar('"), B("t2"), T("')\n\ndef pick_(second_: "), B("t2"), T(", first_: "), B("t1"), T(") -> "), B("t1"), T(":\n\treturn first_\n\n"),
+  T("def apply_fn(fn_: Callable[[int], int], val_: int) -> int:\n\treturn fn_(val_)\n\n"),
   B("s1"), T(": int = 3\n\n"),
   T("def "), B("f1"), T("("), B("p1"), T(": int, "), B("p2"), T(": int) -> int:\n"),
   T("\t"), B("l1"), T(" = "), B("p1"), T(" + "), B("s1"), T("\n"),
